@@ -51,8 +51,26 @@ _LATIN = "".join(chr(c) for c in range(0xA0, 0x100))
 _CODINGS = [None, None, None, "gzip", "br", "identity"]
 
 
+# realistic markup in which "charset=" / "encoding=" / "@charset" occur OUTSIDE a genuine declaration: attributes of
+# other elements, URLs, text content, a non-leading CSS rule -- optionally right after a <meta>/<?xml?> that declares nothing
+_NODECL_HEAD = ['<meta name="viewport" content="width=device-width">', "<meta name=description content=x>",
+                '<META NAME="robots" CONTENT="noindex">', '<meta property="og:title" content="t"/>', '<?xml version="1.0"?>',
+                "<?xml version='1.1' standalone='yes'?>", "<html><head>", "a{color:red}", "/* c */", ""]
+_NODECL_USE = ['<form accept-charset="%s">', '<script src="/a.js" charset="%s"></script>', "<link rel=stylesheet href=a.css charset=%s>",
+               '<a href="/search?q=1&charset=%s">x</a>', "<p>charset=%s</p>", 'Content-Type: text/html; charset=%s',
+               '<doc encoding="%s">', "<x encoding='%s'/>", "<p>encoding=%s</p>", ' @charset "%s";', '/* @charset "%s"; */',
+               "<input name=charset value=%s>"]
+_NODECL_SEP = ["", "", "\n", " ", "\r\n", "</head>"]
+
+
+def _g_nodecl(rnd):
+    return pick(rnd, _NODECL_HEAD) + pick(rnd, _NODECL_SEP) + pick(rnd, _NODECL_USE) % pick(rnd, DECL_CHARSETS)
+
+
 def _g_piece(rnd):
-    r = rnd.randrange(10)
+    r = rnd.randrange(12)
+    if r >= 10:
+        return _g_nodecl(rnd)
     if r in (0, 1):
         return text(rnd, _ASCII, 0, 8)
     if r == 2:
@@ -244,7 +262,10 @@ def check_case(case, ctx):
     tclass = "surrogates" if surr else "ascii" if s.isascii() else "non-ascii"
     bom = next((name for b, name in _BOMS if raw.startswith(b)), None)
     has_decl = bool(_DECL_RE.search(s))
-    if tclass != "ascii" or bom or has_decl:
+    mention = not has_decl and bool(re.search(r"charset=|encoding=|@charset", s, re.I))
+    if mention:
+        ctx.cls("charset-mentioned-outside-declaration")
+    if tclass != "ascii" or bom or has_decl or mention:
         ctx.nt((is_req, mtype, charset, coding, s),
                "%s%s%s" % (tclass, "+bom" if bom else "", "+decl" if has_decl else ""))
     else:
